@@ -263,7 +263,7 @@ def build_table(recipe, name="t"):
     for r in recipe["rows"]:
         row = Row()
         for c in r["cells"]:
-            row._append(Cell(c["v"], repeated=c["r"] if c["r"] > 1 else None))
+            row._append(Cell(c["v"], repeated=c["r"] if c["r"] > 1 else None, style=c.get("style")))
         if r["r"] > 1:
             row._set_repeated(r["r"])
         t._append(row)
